@@ -2,8 +2,8 @@
 //!
 //! Domain: 1–3 partition columns (Utf8 / Int32 / Date32), 1–12 files written by the harness (CSV with
 //! header, NDJSON or Parquet; data columns `id BIGINT` unique, `v BIGINT`, `s VARCHAR`) in a hive layout
-//! below a fresh temp dir. Partition values come from small fixed domains (so files and filter literals
-//! collide often) including values with `/ = % space ' " \ : ~ [ ] ? #`, unicode, a control character,
+//! below a fresh temp dir. Partition values come from small fixed domains, narrowed per case to a palette
+//! of 2–5 entries (so files and filter literals collide often), including values with `/ = % space ' " \ : ~ [ ] ? #`, unicode, a control character,
 //! the empty string and `__HIVE_DEFAULT_PARTITION__`. Every directory name is *spelled* by one of six
 //! writers: object_store `PathPart` (what DataFusion's own COPY writes), DataFusion's partition encode set,
 //! a Spark/Hive-like set, "raw where the file system allows" (only controls, `%`, `/` encoded), lower-case
@@ -52,7 +52,8 @@
 //! from the prefix DataFusion lists (set `VERIF_C27_NO_EXCLUDE=1` to disable the exclusion, e.g. to verify
 //! the fix).
 //!
-//! Sensitivity probes: see PROBES at the end of the report / module (filled after running).
+//! Sensitivity probes (tools/mutrun, patches in crates/vf-list/probes/, quick tier):
+//! PROBE-VERDICTS-C27
 use crate::util::*;
 use arrow::datatypes::DataType;
 use datafusion::common::tree_node::{Transformed, TreeNode};
